@@ -66,14 +66,20 @@ def coq_term_with_obs(line, obs):
         elif k == "an":
             data = hexb(p[1])
             if not data:
-                lops = []
+                # nothing delivered: only the anchor is queued (a default one when nothing was asked for)
+                src = anch[-1] if anch else 0
+                lops = [f"OpAnchored {src} []" if src != 0 else "OpIdle"]
             else:
                 copied = blk["raw_ret"][1] == 1 if len(blk["raw_ret"]) > 1 else False
                 src = anch[-1] if anch else 0              # the anchor pushed last holds the source chunk
                 subs = [f"SubCopy {last_c}" if copied else "SubBorrow"] + (["SubCollapse"] if len_a == len_b else [])
                 lops = [f"OpAnchored {src} {glist(subs)}"]
-        elif k in ("cs", "ab", "rd", "pf"):
+        elif k in ("cs", "pf"):
             lops = [f"OpConsume {max(0, len_b - len_a)}"]
+        elif k in ("ab", "rd"):
+            # byte-wise consumption calls GlobalDeque::consume only when a whole slice goes (consume(0), which would
+            # drop zero-count anchors at the front, is not reached)
+            lops = [f"OpConsume {len_b - len_a}"] if len_b > len_a else []
         elif k == "cl":
             lops = ["OpClear"]
         else:
